@@ -541,6 +541,23 @@ def cmdDuden (args : List String) : String :=
     if v == 0 then "0" else if v > 0 then "+" else "-"
   | _ => "bad-request"
 
+/-- `abi <name> <ret> <type:ref …>`: the C prototype of a foreign function (types Z K B W C T V N LZ LK LB LW LC LT S:<name>) -/
+def abiTy (t : String) : DDP.Spec.Ty :=
+  match t with
+  | "Z" => .zahl | "K" => .komma | "B" => .byte | "W" => .wahr | "C" => .buchstabe | "T" => .text | "V" => .variable | "N" => .nichts
+  | "LZ" => .liste .zahl | "LK" => .liste .komma | "LB" => .liste .byte | "LW" => .liste .wahr | "LC" => .liste .buchstabe | "LT" => .liste .text
+  | t => if t.startsWith "S:" then .kombi (t.drop 2).toString else .nichts
+
+def cmdAbi (args : List String) : String :=
+  match args with
+  | name :: ret :: ps =>
+    let params := ps.map fun p => match p.splitOn ":" with
+      | [t, r] => (abiTy t, r == "1")
+      | [s, n, r] => (abiTy (s ++ ":" ++ n), r == "1")
+      | _ => (DDP.Spec.Ty.nichts, false)
+    (DDP.Abi.signature params (abiTy ret)).toC name
+  | _ => "bad-request"
+
 def dispatch (line : String) : String :=
   match (line.splitOn " ").filter (· ≠ "") with
   | "scan" :: args => cmdScan args
@@ -569,6 +586,7 @@ def dispatch (line : String) : String :=
   | "static" :: args => cmdStatic args
   | "rangecheck" :: args => cmdRangeCheck args
   | "duden" :: args => cmdDuden args
+  | "abi" :: args => cmdAbi args
   | _ => "bad-request"
 
 
